@@ -26,16 +26,21 @@ Inductive law :=
 
 (* generators with an index model (Mesh/GenIdx.v) *)
 Inductive gdesc := GFan (n : nat) | GTube (sides points : nat) | GQuad | GRibbon (points : nat)
-                 | GShape (sides points : nat) (closed : bool).
+                 | GShape (sides points : nat) (closed : bool)
+                 (* assembled generators (Mesh/GenIntern.v): no index formula, structural facts only *)
+                 | GBw (n : nat)          (* BowyerWatson over n input points: one vertex per point *)
+                 | GMarch.                (* marching canvas: interned vertices, welded - every vertex is referenced *)
 Definition gen_idx (g : gdesc) (fl : list bool) : list nat :=
   match g with
   | GFan n => fan_idx n | GTube s p => tube_idx (flip_of fl s) s p
   | GQuad => quad_idx | GRibbon p => ribbon_idx p | GShape s p c => shape_idx s p c
+  | GBw _ | GMarch => []
   end.
 Definition gen_nverts (g : gdesc) : nat :=
   match g with
   | GFan n => fan_nverts n | GTube s p => tube_nverts s p
   | GQuad => quad_nverts | GRibbon p => ribbon_nverts p | GShape s p _ => shape_nverts s p
+  | GBw n => n | GMarch => 0
   end.
 
 Inductive case :=
@@ -130,8 +135,14 @@ Definition corr_ok (c : case) : bool :=
   | CGen _ => true
   | CGenI g fl out =>
       match out with
-      | Ok [r] => topo_eqb (topology r) Triangle && list_eqb Nat.eqb (indices r) (gen_idx g fl)
-                  && (nverts r =? gen_nverts g)
+      | Ok [r] =>
+          match g with
+          | GBw n => topo_eqb (topology r) Triangle && (nverts r =? n) && (length (attrs r) =? 2)
+          | GMarch => topo_eqb (topology r) Triangle
+                      && forallb (fun v => existsb (Nat.eqb v) (indices r)) (seq 0 (nverts r))
+          | _ => topo_eqb (topology r) Triangle && list_eqb Nat.eqb (indices r) (gen_idx g fl)
+                 && (nverts r =? gen_nverts g)
+          end
       | _ => false
       end
   | CLaw _ _ => true
